@@ -131,10 +131,6 @@ Record opts := mkOpts {
 Definition wnal := (N * list N)%type.
 Record outputs := mkOut { out_main : list wnal; out_el : list wnal; out_rpu : list (list N) }.
 
-Record rstate := mkRs {
-  payload_count : N; prev_frame : N; prev_rpu : N; acc : outputs }.
-Definition rs0 : rstate := mkRs 0 0 0 (mkOut [] [] []).
-
 Definition four_sized (t : N) : bool := (t =? 32) || (t =? 33) || (t =? 34) || (t =? 35) || (t =? 62).
 
 (* NALUnit::write_with_preset *)
@@ -148,83 +144,114 @@ Definition convert_rpu_nal (p : profile) (o : opts) (data : list N) : outcome (l
   let* x := if o_crop o then crop x else Ok x in
   write_hevc_unspec62_nalu p src_sw x.
 
-Definition push_main (s : rstate) (w : wnal) : rstate :=
-  mkRs (payload_count s) (prev_frame s) (prev_rpu s)
-       (mkOut (out_main (acc s) ++ [w]) (out_el (acc s)) (out_rpu (acc s))).
-Definition push_el (s : rstate) (w : wnal) : rstate :=
-  mkRs (payload_count s) (prev_frame s) (prev_rpu s)
-       (mkOut (out_main (acc s)) (out_el (acc s) ++ [w]) (out_rpu (acc s))).
-Definition push_rpu (s : rstate) (d : list N) : rstate :=
-  mkRs (payload_count s) (prev_frame s) (prev_rpu s)
-       (mkOut (out_main (acc s)) (out_el (acc s)) (out_rpu (acc s) ++ [d])).
+(* The routing function is written once, generically in the type W of what has been written so
+   far and in the three emit functions; the implementation instance records start-code lengths,
+   the specification instance (below) records payloads only. *)
+Section Routing.
+  Context {W : Type}.
+  Context (emit_main : bool (* annexb *) -> N (* type *) -> bool (* first_nal *) -> list N -> W -> W).
+  Context (emit_el : bool -> N -> bool -> bool (* fixed 4-byte *) -> list N -> W -> W).
+  Context (emit_rpu : list N -> W -> W).
 
-(* one NAL through write_nals; `i0` = first NAL of the batch *)
-Definition route_step (p : profile) (cfg : wcfg) (o : opts) (i0 : bool) (s : rstate) (ni : nal * N)
-  : outcome rstate :=
-  let '(n, idx) := ni in
-  let t := ntype n in
-  let* hd := if o_drop_hdr10plus o && (t =? 39) then remove_hdr10plus (ndata n) else Ok (false, None) in
-  let '(has40, repl) := hd in
-  if has40 && negb (is_some repl) then Ok s              (* only message: NAL dropped *)
-  else if (0 <? prev_rpu s) && (t =? 62) && (idx =? prev_rpu s) then Ok s   (* duplicate RPU *)
-  else
-    let first_flag := i0 && (payload_count s =? 0) && (prev_frame s =? 0) in
-    let changed := negb first_flag && negb (prev_frame s =? idx) in
-    let first_nal := first_flag || changed in
-    let s := if changed then mkRs (payload_count s) idx (prev_rpu s) (acc s) else s in
-    let data := match repl with Some d => d | None => ndata n end in
-    match cfg with
-    | WSingle =>
-        if (t =? 63) && o_discard o then Ok s
-        else if (t =? 62) && is_some (o_mode o) then
-          let* d := convert_rpu_nal p o (ndata n) in
-          Ok (push_main s (sc_len (o_annexb o) t first_nal, d))
-        else Ok (push_main s (sc_len (o_annexb o) t first_nal, data))
-    | _ =>
-        if t =? 63 then
-          match cfg with
-          | WDemux _ => Ok (push_el s (4, skipn 2 (ndata n)))
-          | _ => Ok s
-          end
-        else if t =? 62 then
-          let s := mkRs (payload_count s) (prev_frame s) idx (acc s) in
-          let* d := if is_some (o_mode o) then convert_rpu_nal p o (ndata n) else Ok (ndata n) in
-          match cfg with
-          | WExtract => Ok (push_rpu s (skipn 2 d))
-          | WDemux _ => Ok (push_el s (sc_len (o_annexb o) t false, d))
-          | _ => Ok s
-          end
-        else
-          match cfg with
-          | WDemux false | WExtract => Ok s
-          | _ => Ok (push_main s (sc_len (o_annexb o) t first_nal, data))
-          end
+  Record rstate := mkRs { payload_count : N; prev_frame : N; prev_rpu : N; acc : W }.
+
+  Definition with_acc (s : rstate) (w : W) : rstate := mkRs (payload_count s) (prev_frame s) (prev_rpu s) w.
+
+  (* first-NAL-of-frame tracking: (first_nal, new previous_frame_index) *)
+  Definition track (i0 : bool) (s : rstate) (idx : N) : bool * N :=
+    if i0 && (payload_count s =? 0) && (prev_frame s =? 0) then (true, prev_frame s)
+    else if negb (prev_frame s =? idx) then (true, idx) else (false, prev_frame s).
+
+  (* one NAL through write_nals; `i0` = first NAL of the batch *)
+  Definition route_step (p : profile) (cfg : wcfg) (o : opts) (i0 : bool) (s : rstate) (ni : nal * N)
+    : outcome rstate :=
+    let '(n, idx) := ni in
+    let t := ntype n in
+    let* hd := if o_drop_hdr10plus o && (t =? 39) then remove_hdr10plus (ndata n) else Ok (false, None) in
+    let '(has40, repl) := hd in
+    if has40 && negb (is_some repl) then Ok s              (* only message: NAL dropped *)
+    else if (0 <? prev_rpu s) && (t =? 62) && (idx =? prev_rpu s) then Ok s   (* duplicate RPU *)
+    else
+      let '(first_nal, pf) := track i0 s idx in
+      let s := mkRs (payload_count s) pf (prev_rpu s) (acc s) in
+      let data := match repl with Some d => d | None => ndata n end in
+      match cfg with
+      | WSingle =>
+          if (t =? 63) && o_discard o then Ok s
+          else if (t =? 62) && is_some (o_mode o) then
+            let* d := convert_rpu_nal p o (ndata n) in
+            Ok (with_acc s (emit_main (o_annexb o) t first_nal d (acc s)))
+          else Ok (with_acc s (emit_main (o_annexb o) t first_nal data (acc s)))
+      | _ =>
+          if t =? 63 then
+            match cfg with
+            | WDemux _ => Ok (with_acc s (emit_el (o_annexb o) t false true (skipn 2 (ndata n)) (acc s)))
+            | _ => Ok s
+            end
+          else if t =? 62 then
+            let s := mkRs (payload_count s) (prev_frame s) idx (acc s) in
+            let* d := if is_some (o_mode o) then convert_rpu_nal p o (ndata n) else Ok (ndata n) in
+            match cfg with
+            | WExtract => Ok (with_acc s (emit_rpu (skipn 2 d) (acc s)))
+            | WDemux _ => Ok (with_acc s (emit_el (o_annexb o) t false false d (acc s)))
+            | _ => Ok s
+            end
+          else
+            match cfg with
+            | WDemux false | WExtract => Ok s
+            | _ => Ok (with_acc s (emit_main (o_annexb o) t first_nal data (acc s)))
+            end
+      end.
+
+  Fixpoint route_batch (p : profile) (cfg : wcfg) (o : opts) (i0 : bool) (s : rstate) (l : list (nal * N))
+    : outcome rstate :=
+    match l with
+    | [] => Ok s
+    | x :: t => let* s' := route_step p cfg o i0 s x in route_batch p cfg o false s' t
     end.
 
-Fixpoint route_batch (p : profile) (cfg : wcfg) (o : opts) (i0 : bool) (s : rstate) (l : list (nal * N))
-  : outcome rstate :=
-  match l with
-  | [] => Ok s
-  | x :: t => let* s' := route_step p cfg o i0 s x in route_batch p cfg o false s' t
-  end.
+  (* process_nals per batch, then payload_count += 1 *)
+  Fixpoint route_batches (p : profile) (cfg : wcfg) (o : opts) (s : rstate) (bs : list (list (nal * N)))
+    : outcome rstate :=
+    match bs with
+    | [] => Ok s
+    | b :: t =>
+        let* s' := route_batch p cfg o true s b in
+        route_batches p cfg o (mkRs (payload_count s' + 1) (prev_frame s') (prev_rpu s') (acc s')) t
+    end.
+End Routing.
 
-(* process_nals per batch, then payload_count += 1 *)
-Fixpoint route_batches (p : profile) (cfg : wcfg) (o : opts) (s : rstate) (bs : list (list (nal * N)))
-  : outcome rstate :=
-  match bs with
-  | [] => Ok s
-  | b :: t =>
-      let* s' := route_batch p cfg o true s b in
-      route_batches p cfg o (mkRs (payload_count s' + 1) (prev_frame s') (prev_rpu s') (acc s')) t
+(* implementation instance: what the writers receive, with start-code lengths *)
+Definition impl_main (annexb : bool) (t : N) (first_nal : bool) (d : list N) (w : outputs) : outputs :=
+  mkOut (out_main w ++ [(sc_len annexb t first_nal, d)]) (out_el w) (out_rpu w).
+Definition impl_el (annexb : bool) (t : N) (first_nal fixed4 : bool) (d : list N) (w : outputs) : outputs :=
+  mkOut (out_main w) (out_el w ++ [((if fixed4 then 4 else sc_len annexb t first_nal), d)]) (out_rpu w).
+Definition impl_rpu (d : list N) (w : outputs) : outputs :=
+  mkOut (out_main w) (out_el w) (out_rpu w ++ [d]).
+
+Fixpoint rebatch {A} (ls : list (list nal)) (fl : list A) : list (list A) :=
+  match ls with
+  | [] => []
+  | b :: t => firstn (List.length b) fl :: rebatch t (skipn (List.length b) fl)
   end.
 
 Definition run_stream (p : profile) (cfg : wcfg) (o : opts) (batches : list (list nal)) : outcome outputs :=
   let flat := assign_indices ps0 (concat batches) in
-  (* re-batch the indexed list with the same batch lengths *)
-  let fix rebatch (ls : list (list nal)) (fl : list (nal * N)) : list (list (nal * N)) :=
-      match ls with
-      | [] => []
-      | b :: t => firstn (List.length b) fl :: rebatch t (skipn (List.length b) fl)
-      end in
-  let* s := route_batches p cfg o rs0 (rebatch batches flat) in
+  let* s := route_batches impl_main impl_el impl_rpu p cfg o (mkRs 0 0 0 (mkOut [] [] []))
+                          (rebatch batches flat) in
   Ok (acc s).
+
+(* specification instance: payload sequences only, one flat pass over the NAL list *)
+Record pouts := mkPo { po_main : list (list N); po_el : list (list N); po_rpu : list (list N) }.
+Definition spec_main (annexb : bool) (t : N) (first_nal : bool) (d : list N) (w : pouts) : pouts :=
+  mkPo (po_main w ++ [d]) (po_el w) (po_rpu w).
+Definition spec_el (annexb : bool) (t : N) (first_nal fixed4 : bool) (d : list N) (w : pouts) : pouts :=
+  mkPo (po_main w) (po_el w ++ [d]) (po_rpu w).
+Definition spec_rpu (d : list N) (w : pouts) : pouts := mkPo (po_main w) (po_el w) (po_rpu w ++ [d]).
+
+Definition route_spec (p : profile) (cfg : wcfg) (o : opts) (nals : list nal) : outcome pouts :=
+  let* s := route_batch spec_main spec_el spec_rpu p cfg o false (mkRs 0 0 0 (mkPo [] [] []))
+                        (assign_indices ps0 nals) in
+  Ok (acc s).
+
+Definition erase (w : outputs) : pouts := mkPo (map snd (out_main w)) (map snd (out_el w)) (out_rpu w).
